@@ -413,6 +413,12 @@ structure St where
 def St.tLog (st : St) (_t : T) (x : Text) : St := { st with tev := st.tev ++ [.log x] }
 /-- `t.Error(x)` -/
 def St.tError (st : St) (_t : T) (x : Text) : St := { st with tev := st.tev ++ [.error x] }
+/-- `t.Skip(args...)`: the test is marked skipped (the rendering of `args` is testing's business) -/
+def St.tSkip (st : St) (_t : T) : St := { st with tev := st.tev ++ [.skip []] }
+/-- `t.Skipf(format, args...)` -/
+def St.tSkipf (st : St) (_t : T) : St := { st with tev := st.tev ++ [.skipf []] }
+/-- `t.SkipNow()` -/
+def St.tSkipNow (st : St) (_t : T) : St := { st with tev := st.tev ++ [.skipNow] }
 /-- `t.Cleanup(f)` -/
 def St.tCleanup (st : St) (t : T) (c : Cleanup) : St := { st with cleanups := (t.id, c) :: st.cleanups }
 /-- `testEvents.register(kind)`: `e.items[event]++` under the events mutex -/
